@@ -38,6 +38,7 @@ CONSTANTS
   Faults,      \* faults an update may be served under: subset of {"none", "abmf"} ("abmf": the account server is unreachable)
   Events,      \* TRUE: the model's subscribers also send one-time events (event based charging next to their sessions)
   EvTypes,     \* values of oneTimeEventType a create may carry ("" = absent); legal with and without oneTimeEvent
+  OpCfgs,      \* operator configurations the CHF may run under (records [vl, vlp, qvt, th]; constant within a behaviour)
   Traffic,     \* numbers of unrelated one-time creates (they advance the global record counter)
   EmitOneIn    \* behaviour emission: print one transition in EmitOneIn (seeded by -seed)
 
@@ -79,10 +80,10 @@ CountC(tpl, i) == IF i > Len(tpl) THEN 0 ELSE Len(tpl[i].conts) + CountC(tpl, i 
 Size(rec) == 1 + rec.pad + Len(rec.conts)
 
 Init ==
-  /\ \E f \in [Keys -> AcctChoices] :
-       /\ st = [acct |-> [k \in Keys |-> [quota |-> f[k][1], cost |-> f[k][2]]], ue |-> EmptyFn, lrsn |-> Lrsn0]
+  /\ \E f \in [Keys -> AcctChoices], oc \in OpCfgs :
+       /\ st = [acct |-> [k \in Keys |-> [quota |-> f[k][1], cost |-> f[k][2]]], ue |-> EmptyFn, lrsn |-> Lrsn0, cfg |-> oc]
        /\ h = HInit([k \in Keys |-> [quota |-> f[k][1], cost |-> f[k][2]]])
-       /\ hist = << [a |-> "setup", lrsn0 |-> Lrsn0, wb |-> WellBehaved, ues |-> Subs \cup (IF Traffic = {} THEN {} ELSE {"9"}),
+       /\ hist = << [a |-> "setup", cfg |-> oc, lrsn0 |-> Lrsn0, wb |-> WellBehaved, ues |-> Subs \cup (IF Traffic = {} THEN {} ELSE {"9"}),
                      accts |-> {[u |-> KeyU(k), rg |-> KeyG(k), quota |-> f[k][1], cost |-> ToString(f[k][2])] : k \in Keys}] >>
   /\ nid = 0 /\ labels = EmptyFn /\ flags = {}
 
